@@ -241,8 +241,67 @@ pub fn construct(d: &mut Driver, ch: &mut dyn Chooser, which: usize) {
 
 fn from_owner(d: &mut Driver, ch: &mut dyn Chooser, id: u32) {
     let len = pick_size(ch).min(3000);
-    let kind = ch.choose(6);
+    let kind = ch.choose(7);
     let stats = Arc::new(OwnerStats::default());
+    if kind == 6 {
+        // an owner whose destructor panics: a self-contained probe (nothing joins the pool). Whichever call releases
+        // the last view, the owner must have been dropped exactly once and the crate's block holding it must be
+        // gone -- the leak balance at the end of the history sees it if it is not (C03)
+        struct PanicDrop {
+            buf: Vec<u8>,
+            stats: Arc<OwnerStats>,
+        }
+        impl AsRef<[u8]> for PanicDrop {
+            fn as_ref(&self) -> &[u8] {
+                self.stats.as_ref_calls.fetch_add(1, std::sync::atomic::Ordering::Relaxed);
+                &self.buf
+            }
+        }
+        impl Drop for PanicDrop {
+            fn drop(&mut self) {
+                self.stats.drops.fetch_add(1, std::sync::atomic::Ordering::Relaxed);
+                if !std::thread::panicking() {
+                    panic!("owner destructor panics (injected)");
+                }
+            }
+        }
+        let how = ch.choose(4);
+        let len = 1 + len.min(64);
+        d.log(format!("from_owner with an owner whose destructor panics (len={len}); clone; last view released by way {how}"));
+        d.count("owners_created");
+        let o = PanicDrop { buf: gen_bytes(id, len), stats: stats.clone() };
+        let r = crate::util::catch(move || {
+            let b = Bytes::from_owner(o);
+            let c = b.clone();
+            drop(b);
+            match how {
+                0 => drop(c),
+                1 => {
+                    let v: Vec<u8> = c.into();
+                    drop(v);
+                }
+                2 => {
+                    let m = BytesMut::from(c);
+                    drop(m);
+                }
+                _ => {
+                    let s = c.slice(..1);
+                    drop(c);
+                    drop(s);
+                }
+            }
+        })
+        .map_err(|_msg| ());
+        use std::sync::atomic::Ordering::Relaxed;
+        if r.is_ok() {
+            d.viol("C03", "owner-drop-panic-swallowed", "the owner's destructor panicked but the releasing call returned normally");
+        }
+        if stats.drops.load(Relaxed) != 1 || stats.as_ref_calls.load(Relaxed) != 1 {
+            d.viol("C03", "owner-drop-count", &format!("owner with a panicking destructor: as_ref called {} times, dropped {} times", stats.as_ref_calls.load(Relaxed), stats.drops.load(Relaxed)));
+        }
+        d.cell(format!("ctor|from_owner|drop-panics|way{how}"));
+        return;
+    }
     if kind == 5 {
         // bytes stored inside an over-aligned owner: they live inside the crate's own owner box
         let len = len.min(192);
